@@ -174,6 +174,9 @@ def prior_use_shard(args):
                 # targeted family: an assert / a late-bound field that the extension changes
                 x0, x1 = rng.choice([(1, -1), (5, 0), (2, 2), (1, 10), (0, 1)])
                 objs = [rng.choice(["{assert self.x > 0 : 'x must be positive', x: %d, y: self.x * 2}" % x0,
+                                    "{x: %d, m(k):: self.x + k, y: self.m(1)}" % x0,
+                                    "{x: %d, m:: function(k) [self.x, k]} + {n(k):: super.x + k, x: 0}" % x0,
+                                    "{x: %d} + {m(k):: [self.x, super.x, k]}" % x0,
                                     "{assert self.x > 0, x: %d}" % x0,
                                     "{x: %d, y: self.x + 1, assert self.y != 1 : 'y'}" % x0,
                                     "{assert self.x > 0 : 'base'} + {x: %d, n: self.x}" % x0,
@@ -199,8 +202,18 @@ def prior_use_shard(args):
             if not usable:
                 continue
             pick = rng.sample(usable, rng.randint(1, len(usable)))
+            # every kind of observation: conversion, comparison, field listing, reading each field, calling each method
+            METHOD_USE = ("std.length([(if std.isFunction(%s[k]) && std.length(%s[k]) == 1 then std.length(std.toString(%s[k](1))) else 0) "
+                          "for k in std.objectFieldsAll(%s)])")
             uses = " + ".join(rng.choice(["std.length(std.toString(%s))", "(if %s == %s then 1 else 0)",
-                                         "std.length(std.objectFields(%s))"]).replace("%s", nm) for nm in pick)
+                                         "std.length(std.objectFields(%s))", METHOD_USE, METHOD_USE]).replace("%s", nm) for nm in pick)
+            # the combination is observed the same way afterwards (values of its fields and results of its one-argument methods)
+            OBSERVE = ("local C_ = %s; [C_, [(if std.isFunction(C_[k]) && std.length(C_[k]) == 1 then C_[k](2) else null) "
+                       "for k in std.objectFieldsAll(C_)]]")
+            combo = OBSERVE % combo
+            base = ev.run(head + combo, walk=1, stack=2000)
+            if base.cls in ("inconclusive", "panic", "crash"):
+                continue
             src2 = head + "local used = %s; if used >= 0 then %s else null" % (uses, combo)
             r2 = ev.run(src2, walk=1, stack=2000)
             if r2.cls == "inconclusive":
